@@ -174,6 +174,12 @@ Theorem C20_requested_time_is_matched :
 Proof. exact requested_time_is_matched. Qed.
 Print Assumptions C20_requested_time_is_matched.
 
+(** default_evaluation_times = Full: every own evaluation time of every observable is merged into the solver's times (up to IEEE equality, as np.union1d does), whatever the sampling rate *)
+Theorem C20_full_merges_own_times :
+  forall (rate : float) (extras : list float) (T : Z) (ts : list float) (e : float), extras <> [] -> full_rel_times rate extras T = Some ts -> In e extras -> exists r u : float, (r = e \/ f_eq e r = true) /\ (u = (r * f_of_dur T * f_1em3)%float \/ f_eq (r * f_of_dur T * f_1em3) u = true) /\ In (rel_time T u) ts.
+Proof. exact full_merges_own_times. Qed.
+Print Assumptions C20_full_merges_own_times.
+
 (** REFUTED: an observable asked for one time gets values at a second observable's close-by time and at the default time as well *)
 Theorem C20_close_times_refuted :
   exists (T : Z) (a b : float), f_lt a b = true /\ run_store (Some [f_one]) T [a; b; f_one] [(0, Some [a]); (1, Some [b])] = SL [SZ 0; SL [SL [SF a; SF b; SF f_one]; SL [SF a; SF b; SF f_one]]].
